@@ -2,6 +2,7 @@
 """C17 Fingerprints -- fold bound, numbering-blind hashing, fragment canonicalisation."""
 from ..r_canon import rule_fold_mask, rule_order_free_hash, rule_hash_inputs, rule_fragment_canonical
 from ..r_hygiene import rule_hygiene as _rule_hygiene
+from ..r_canon import rule_uncapped_sentinel as _rule_uncapped
 from ..r_canon import rule_morgan_layers as _rule_layers
 from ..r_canon import rule_chain_length_window as _rule_window
 
@@ -16,5 +17,6 @@ def run(ck, repo):
     rule_hash_inputs(ck, repo, 'C17.D2-hash-inputs')
     rule_fragment_canonical(ck, repo, 'C17.D2-fragment-canonical')
     _rule_hygiene(ck, repo, 'C17.H-dataflow-hygiene', 'C17')
+    _rule_uncapped(ck, repo, 'C17.D2-uncapped')
     _rule_layers(ck, repo, 'C17.D3-morgan-layers')
     _rule_window(ck, repo, 'C17.D2-length-window')
